@@ -25,6 +25,9 @@ def shards(tier):
             if L >= 5 and t[0] != 0:
                 continue
             out.append({"a": list(t)})
+    # two 40-element arrays with long and short runs (size / threshold effects), reduced slice grid
+    out.append({"a": [0] * 9 + [1] * 1 + [2] * 14 + [0, 1, 0, 1] + [2] * 12, "slim": 1})
+    out.append({"a": [(i * 7 // 5) % 3 for i in range(40)], "slim": 1})
     if tier != "quick":
         for L in (7, 8):
             for t in itertools.product(range(2), repeat=L):
